@@ -50,7 +50,7 @@ theorem source_forms :
     Gen.handlerFacts.pipelineExecForwards = true ∧
     Gen.handlerFacts.pipelineViewDefault = true ∧ Gen.handlerFacts.offReaderViewDefault = true ∧
     Gen.handlerFacts.nextForwardsCtx = true ∧ Gen.handlerFacts.serversEchoViewQuery = true ∧
-    Gen.handlerFacts.deriveTailTests = true := by
+    Gen.handlerFacts.deriveTailTests = true ∧ Gen.handlerFacts.serveLoopsHaveNoExtraTimers = true := by
   decide
 
 /-! ## middleware runs for every route -/
